@@ -3,7 +3,7 @@
    output prefix, loop bound and meaning of calls.  `let` -> `const` is the identity on the reference (one node, SLet).
    The compiler is tied to this by the metamorphic correspondence run of harness/c09.py. *)
 From Coq Require Import ZArith List Bool.
-From FV Require Import Core.Syntax Core.Sem Proofs.RewriteP Proofs.CongrP.
+From FV Require Import Core.Syntax Core.Sem Proofs.RewriteP Proofs.CongrP Proofs.BindP.
 Import ListNotations.
 
 Theorem C09_if_true_wrap :
@@ -73,8 +73,45 @@ Theorem C09_program_nonvacuous :
 Proof. vm_compute. reflexivity. Qed.
 Print Assumptions C09_program_nonvacuous.
 
-(* The bind-subexpression rewrite itself (environment equivalence modulo the fresh name) is NOT proved; it is covered by the
-   metamorphic runs only.  Rewrites at several sites compose by transitivity of `rle` (CongrP.rle_trans). *)
+(* --- binding a side-effect-free subexpression to a fresh immutable local just before its use.
+   A call-free expression is a function of the environment alone (`peval`), evaluated without output and without touching the
+   environment (C09_callfree_is_pure).  If e has the value v, then after `let x = e;` the expression C[x] has exactly the value
+   C[e] had before, for every call-free context C in which the fresh x does not occur (C09_bind_subexpr_value); as statements,
+   `{ let x = e; print(C[x]); }` and `print(C[e]);` are equal: output, control flow and resulting environment (C09_bind_subexpr_print).
+   Together with C09_context_refinement the statement form lifts to any position of any function.  Not proved: the un-bracketed
+   form `let x = e; s` for statements s that declare variables of their own (x stays in scope: equivalence holds modulo the fresh
+   name), and contexts containing calls. --- *)
+Theorem C09_callfree_is_pure :
+  forall structs callf e en out, callfree e = true ->
+    eval structs callf e en out = lift (peval structs e en) en out.
+Proof. exact eval_callfree. Qed.
+Print Assumptions C09_callfree_is_pure.
+
+Theorem C09_bind_subexpr_value :
+  forall structs x v C e en, cfctx x C = true -> peval structs e en = PV v ->
+    peval structs (eplug C (EVar x)) (declare x v en) = peval structs (eplug C e) en.
+Proof. exact peval_bind. Qed.
+Print Assumptions C09_bind_subexpr_value.
+
+Theorem C09_bind_subexpr_print :
+  forall structs callf k x t v C e en out,
+    cfctx x C = true -> callfree e = true -> peval structs e en = PV v ->
+    exec structs callf k (SBlock (SSeq (SLet x t e) (SPrint [eplug C (EVar x)]))) en out =
+    exec structs callf k (SPrint [eplug C e]) en out.
+Proof. exact bind_subexpr_print. Qed.
+Print Assumptions C09_bind_subexpr_print.
+
+Theorem C09_bind_nonvacuous :
+  let e := EBin Mul (EVar 1) (ELit I32 3%Z) in
+  let C := CBinR Add (EVar 2) (CCast CHole I64) in
+  cfctx 9 C = true /\ callfree e = true /\
+  peval [] e [[(1, VInt I32 5%Z); (2, VInt I64 7%Z)]] = PV (VInt I32 15%Z) /\
+  exec [] (fun _ _ _ => Wrong) 0 (SPrint [eplug C e]) [[(1, VInt I32 5%Z); (2, VInt I64 7%Z)]] [] =
+    Ok ([[(1, VInt I32 5%Z); (2, VInt I64 7%Z)]], FNormal) [[OInt 22%Z]].
+Proof. vm_compute. repeat split; reflexivity. Qed.
+Print Assumptions C09_bind_nonvacuous.
+
+(* Rewrites at several sites compose by transitivity of `rle` (CongrP.rle_trans). *)
 
 Theorem C09_nonvacuous :
   exists structs callf k s en out r, exec structs callf k (SIf (EBool true) s SSkip) en out = Ok r out /\ s <> SSkip.
